@@ -256,7 +256,10 @@ def check(run):
                        "syntactic nesting <= 40 (deeper nesting exhausts the interpreter stack by construction and is excluded by the property)",
                        "time budget 3 s + 2e-6 s*n^2 CPU stands for 'polynomial, no blow-up'"]
     src = core.snapshot()
-    proofs(run, src)
+    try:
+        proofs(run, src)
+    except Exception as e:  # noqa: BLE001  a broken proof phase must not stop the search for a concrete input (verdict stays fail-closed)
+        run.obligation("proof-and-tie-phase-completed", False, "%s: %s" % (type(e).__name__, str(e)[:400]))
     search(run, src)
 
 
@@ -305,6 +308,11 @@ def count_cases(rng, tier):
     for _ in range(1500 if tier == "quick" else 20000):
         ln = rng.choice([5, 6, 8, 12, 20, 40])
         cs.append([rng.choice([2, 2, 3, 3, 4, 5, 6, 9]) for _ in range(ln)])
+    # unbalanced opener followed by k runs of one length (the state space can only be kept small by pruning / de-duplication)
+    for first in (2, 3, 4, 5):
+        for n in (2, 3, 4, 5, 6):
+            for k in (10, 20, 40, 60):
+                cs.append([first] + [n] * k)
     # balanced italic(bold*k) / bold(italic*k) families (see C02_quotes_balanced)
     for k in range(1, 30):
         cs.append([2] + [3, 3] * k + [2])
@@ -343,11 +351,20 @@ def proofs(run, src):
     out = subprocess.run([exe], input=lines, capture_output=True, text=True, timeout=1800).stdout.splitlines()
     dis = []
     pruned = 0
+    maxwork = 0
     for c, m in zip(cases, out):
         r = res[c["id"]]
+        # the bound of C01_compute_path_bounded, measured on the real code: states handed to sort_states per step
+        w = r.get("work") or []
+        if w:
+            maxwork = max(maxwork, max(w))
+        if w and max(w) > 192:
+            dis.append("compute_path(%r): real code generated %d states in one step (theorem bound 192 = 6*32)" % (c["counts"], max(w)))
         if "exc" in r:
-            dis.append("compute_path(%r): real raised %s, model %s" % (c["counts"], r["exc"], m))
+            dis.append("compute_path(%r): real raised %s after %s s CPU, model %s" % (c["counts"], r["exc"], r.get("cpu"), m))
             continue
+        if len(w) != len(c["counts"]):
+            dis.append("compute_path(%r): sort_states called %d times for %d counts" % (c["counts"], len(w), len(c["counts"])))
         f = m.split()
         if f[0] != "LEN":
             dis.append("compute_path(%r): model %s, real returned %d states" % (c["counts"], m, len(r["path"])))
@@ -366,6 +383,7 @@ def proofs(run, src):
     run.tie("compute_path: real path is a get_next chain of the model, same length; same final score when no pruning can occur",
             len(cases), dis)
     run.coverage["compute_path_cases_with_pruning"] = pruned
+    run.coverage["compute_path_max_states_per_step_real"] = maxwork
 
 
 def replay(obj):
